@@ -604,3 +604,21 @@ Section Facts.
     exact (secfld_min_order _ _ _ _ _ _ _ _ _ _ Hmo H).
   Qed.
 End Facts.
+
+(* ------------------------------------------------------------------------------------ *)
+(** * Values of a lifted type.  SecureFiniteField.__init__ for an int value of a lifted type:
+      [value %= subfield.modulus; value = field(value)], i.e. the constant polynomial (v mod q) of
+      GF(q^e) (coefficient list, no trailing zeros).  So every int lands in the embedded base field
+      and its output conversion is v mod q. *)
+Definition lift_int (q v : Z) : list Z := let r := v mod q in if r =? 0 then [] else [r].
+
+Theorem lift_int_in_base_field q v : 0 < q ->
+  pdeg (lift_int q v) <= 0 /\ out_conv q (lift_int q v) = Ok (v mod q) /\ 0 <= v mod q < q.
+Proof.
+  intros Hq. pose proof (Z.mod_pos_bound v q Hq) as Hr.
+  split; [|split; [apply out_conv_base; exact Hr|exact Hr]].
+  unfold lift_int, pdeg. destruct (v mod q =? 0); simpl; lia.
+Qed.
+
+Theorem lift_int_congruent q v w : 0 < q -> v mod q = w mod q -> lift_int q v = lift_int q w.
+Proof. intros _ H. unfold lift_int. rewrite H. reflexivity. Qed.
